@@ -253,6 +253,12 @@ def frame_rules(run, db):
                 gs = domf.rat(v_.items[1]) if isinstance(v_, Tup) and len(v_.items) == 2 else None
                 got.append((gx.key() if gx is not None else '?', gs.key() if gs is not None else '?'))
                 ok = ok and gx is not None and gs is not None and gx == wantX and gs == wantS
+            if any('?' in g for g in got):
+                # the rotation is applied in a way this reading (matmul / @ as an uninterpreted mm) does not follow
+                if getattr(run, 'frames_on_values', None):
+                    run.info('transform_to_%s_coords: the rotation is not read as mm(R, v) (%s); the transform was decided on values' % (label, got))
+                    continue
+                raise AnalysisError('transform_to_%s_coords: the values that are returned are not followed: %s' % (label, got))
             run.check(ok, 'C19.rigid', fi.qual, '%s transform%s' % (label, '' if with_R else ' (no rotation)'),
                       ('local = R (X - P)' if sign < 0 else 'global = R X + P') + '; directions are rotated, not translated' + ('' if with_R else ' [R is None: translation only]'),
                       'transform_to_%s_coords returns %s, expected (%s, %s)' % (label, got, wantX.key(), wantS.key()), fi.loc())
@@ -346,6 +352,11 @@ def frame_rules(run, db):
             want_kinds += ['local', 'hit', t_.lower(), 'global']
         ok = [k for k, _ in seq] == want_kinds
         detail = str([k for k, _ in seq])
+        if not ok and sorted(k for k, _ in seq) != sorted(want_kinds):
+            # a stage that is not reached through the function this reading looks for (the transform inlined, or done by a shared helper)
+            # is a stage that is not followed, not a stage that is missing
+            raise AnalysisError('raytrace: the stages reached through transform_to_local_coords / intersect / reflect / refract / transform_to_global_coords are %s, '
+                                'expected %s for %s: the wiring is not followed' % (detail, want_kinds, list(order)))
         if ok:
             nprev = 'NAMB'
             Pcur, Scur = 'Pin', 'Sin'
@@ -452,7 +463,13 @@ def normal_rules(run, db):
             ok = all(c_ is not None for c_ in comps) and comps[0] == -A0('FX') and comps[1] == -A0('FY') and comps[2] == Rat(R0.const(1))
             detail = str([c_.key() if c_ is not None else '?' for c_ in comps])
         ok = ok and ffp_args and [dom0.rat(a).key() if dom0.rat(a) is not None else '?' for a in ffp_args[0]] == ['x', 'y']
-    run.check(ok, 'C19.normal', f.qual, 'gradient', 'normal direction is (-dz/dx, -dz/dy, 1), the gradient of z - sag(x, y), stacked per ray', 'sag_normal no longer returns (sag, (-Fx, -Fy, 1)): %s' % detail, f.loc())
+    if not ok and not detail and getattr(run, 'sag_normal_on_values', None):
+        # the stacking is done in a way this reading (np.stack summarised) does not follow: the values decided it
+        run.info('sag_normal: the way the normal is stacked is not read; (sag, (-Fx, -Fy, 1)) per ray was decided on values')
+    elif not ok and not detail:
+        raise AnalysisError('sag_normal: the (sag, normal) pair that is returned is not followed')
+    else:
+        run.check(ok, 'C19.normal', f.qual, 'gradient', 'normal direction is (-dz/dx, -dz/dy, 1), the gradient of z - sag(x, y), stacked per ray', 'sag_normal no longer returns (sag, (-Fx, -Fy, 1)): %s' % detail, f.loc())
     # Newton step: decided by interpreting the solver for ONE iteration (maxiter = 1) in NORM, with the surface function a stub
     # that records where it is evaluated: the point is P1 + s S, F = Z - sag, F' = S . grad F, and s <- s - F/F' is what is stored
     from .common import norm_interp as _ni, returns as _ret
@@ -703,6 +720,13 @@ def indexspace_rules(run, db):
         raise AnalysisError('newton_raphson_solve_s: the set of ray numbers (`... = arange(nrays)`) was not found before the loop')
     MASK = gi_names[0]
     problems = []
+    # arrays carried from one pass to the next (other than the set of ray numbers) are working copies of the rays still iterating:
+    # sub-batch arrays, addressed by position in the sub-batch -- at loop entry the sub-batch is every ray, so a buffer sized by nrays
+    # before the loop is the same thing
+    from .common import loop_carried
+    for c_ in loop_carried(lp):
+        if c_ != MASK and env.get(c_) == GA and any(isinstance(n, ast.Assign) and any(isinstance(t, ast.Name) and t.id == c_ for t in n.targets) for n in ast.walk(lp)):
+            env[c_] = LA
 
     def typ(e):
         if isinstance(e, ast.Name):
@@ -739,6 +763,10 @@ def indexspace_rules(run, db):
             return LA if LA in ts else (GA if GA in ts else None)
         if isinstance(e, ast.Call):
             fname = ast.unparse(e.func)
+            if fname in ('np.take', 'numpy.take') and len(e.args) >= 2:
+                return typ(ast.Subscript(value=e.args[0], slice=e.args[1], ctx=ast.Load()))          # np.take(a, idx) is a[idx]
+            if isinstance(e.func, ast.Attribute) and e.func.attr == 'take' and len(e.args) >= 1 and typ(e.func.value) is not None:
+                return typ(ast.Subscript(value=e.func.value, slice=e.args[0], ctx=ast.Load()))
             ats = [typ(a) for a in e.args]
             if fname.endswith('nonzero') or fname.endswith('flatnonzero') or fname.endswith('argwhere') or fname.endswith('where') and len(e.args) == 1:
                 return LI if LI in ats else (GI if GI in ats else None)          # positions within the array that was tested
@@ -936,8 +964,12 @@ def _newton_state(run, db):
     if len(mk_) != 1:
         # the set of unconverged rays is kept some other way (a boolean array, say): what is carried is not judged here
         raise AnalysisError('newton_raphson_solve_s: the index set of unconverged rays (arange(nrays)) is not found; the iteration state is not followed')
-    run.check(carried == set(mk_), 'C19.normal', fn.qual, 'iteration state', 'only the index set of unconverged rays is carried between Newton iterations (the step lengths live in sj)',
-              'Newton iteration carries %s between iterations, expected only the unconverged-ray index set `mask`' % sorted(carried), fn.loc(loops[0]))
+    if carried != set(mk_):
+        # a working set of the unconverged rays carried along with (or instead of) their indices is another way of doing the same thing: what
+        # it holds for which ray is the index-space rule's business (a global-sized array addressed with a local index is reported there);
+        # this reading only knows the organisation in which nothing but the index set is carried
+        raise AnalysisError('newton_raphson_solve_s: the iteration carries %s, not only the index set of unconverged rays; the iteration state is not followed' % sorted(carried))
+    run.ok('C19.normal', fn.qual, 'only the index set of unconverged rays is carried between Newton iterations (the step lengths live in sj)')
     tests = [n for n in ast.walk(loops[0]) if isinstance(n, ast.Compare) and len(n.ops) == 1 and any(isinstance(x, ast.Name) and x.id == 'eps' for x in ast.walk(n))]
     if not tests:
         raise AnalysisError('newton_raphson_solve_s: convergence test against eps not found')
@@ -1037,8 +1069,10 @@ def check(run, db, tier):
     run.rule('C19.axis0', 'no unguarded division by the radial coordinate on the normal path')
     # the ray through the local origin decided on values first (constructors run, the stored closure called on a two-ray bundle):
     # the reading of the closures in normal_rules defers to it when it does not find them where it looks
-    from .c19values import axis_value_rules
+    from .c19values import axis_value_rules, frame_value_rules, sag_normal_value_rules
+    run.sag_normal_on_values = run.group(sag_normal_value_rules, run, db)
     run.axis_on_values = run.group(axis_value_rules, run, db)
+    run.frames_on_values = run.group(frame_value_rules, run, db)
     for fn in (vector_rules, frame_rules, normal_rules, rotation_rules, state_rules, indexspace_rules, closure_gradient_rules):
         run.group(fn, run, db)
     # the slopes handed to the normal are the derivatives of the sag (shared with C09.rule)
